@@ -128,6 +128,22 @@ def _r081(ck, prog, cfg):
             if lhs.get("p") == ["*"] and fn.locals[lhs["l"]] == "&mut " + CLOCK:
                 ck.bad("R08.1", "%s:assign-through-clock-ref%s" % (fn.id, _tag(cfg)),
                        "`*clock = ..` overwrites a Lamport clock wholesale", fn.where(st["ln"]))
+            # `*self = ShardReplicaState::new(..)` in a reset()/clear() method of the clock's owner: same thing one level up
+            lt = fn.locals[lhs["l"]] if lhs.get("p") == ["*"] else ""
+            if lt.startswith("&mut ") and any(lt[5:] == o or lt[5:].startswith(o + "<") for o in {o for (o, f_) in clock_fields}):
+                ck.bad("R08.1", "%s:assign-through-owner-ref%s" % (re.sub(r"\{closure#\d+\}", "{closure}", fn.id), _tag(cfg)),
+                       "`*self = ..` replaces a whole %s, which holds the node's Lamport clock, in running code: the clock restarts and stamps "
+                       "issued afterwards repeat or undercut earlier ones (a FLUSHALL that resets the replication state makes the next "
+                       "write lose against the pre-flush value on every peer)" % lt[5:].rsplit("::", 1)[-1], fn.where(st["ln"]))
+        for b, t in fn.calls():
+            if is_callee(t, r"^std::mem::(replace|swap|take)::<"):
+                ta = (t.get("fnargs") or callee(t))
+                mm = re.search(r"::<(.*)>$", ta)
+                ty = mm.group(1) if mm else ""
+                if ty == CLOCK or any(ty == o or ty.startswith(o + "<") for o in {o for (o, f_) in clock_fields}):
+                    ck.bad("R08.1", "%s:mem-%s-clock-owner%s" % (re.sub(r"\{closure#\d+\}", "{closure}", fn.id), callee(t).split("::")[2].split("<")[0], _tag(cfg)),
+                           "std::mem::%s swaps out a whole %s (it holds / is the node's Lamport clock) in running code" % (callee(t).split("::")[2], ty.rsplit("::", 1)[-1]),
+                           fn.where(t["ln"]))
     ck.extra.setdefault("node_clock_fields", sorted("%s.%s" % x for x in clock_fields))
 
 
